@@ -1159,7 +1159,13 @@ impl Relation {
                 if i > 0 {
                     builder.token(WHITESPACE.into(), " ");
                 }
-                builder.token(IDENT.into(), arch.as_str());
+                let arch = if let Some(arch) = arch.strip_prefix('!') {
+                    builder.token(NOT.into(), "!");
+                    arch
+                } else {
+                    arch.as_str()
+                };
+                builder.token(IDENT.into(), arch);
             }
             builder.token(R_BRACKET.into(), "]");
             builder.finish_node();
@@ -1431,14 +1437,21 @@ impl Relation {
     pub fn architectures(&self) -> Option<impl Iterator<Item = String> + '_> {
         let architectures = self.0.children().find(|n| n.kind() == ARCHITECTURES)?;
 
-        Some(architectures.children_with_tokens().filter_map(|node| {
-            let token = node.as_token()?;
-            if token.kind() == IDENT {
-                Some(token.text().to_string())
-            } else {
-                None
-            }
-        }))
+        // A negated architecture ("!amd64") is a NOT token followed by an IDENT token
+        let mut negated = false;
+        Some(
+            architectures
+                .children_with_tokens()
+                .filter_map(move |node| match node.as_token()?.kind() {
+                    NOT => {
+                        negated = true;
+                        None
+                    }
+                    IDENT if std::mem::take(&mut negated) => Some(format!("!{}", node)),
+                    IDENT => Some(node.to_string()),
+                    _ => None,
+                }),
+        )
     }
 
     /// Returns an iterator over the build profiles for this relation
@@ -1565,6 +1578,12 @@ impl Relation {
             if i > 0 {
                 builder.token(WHITESPACE.into(), " ");
             }
+            let arch = if let Some(arch) = arch.strip_prefix('!') {
+                builder.token(NOT.into(), "!");
+                arch
+            } else {
+                arch
+            };
             builder.token(IDENT.into(), arch);
         }
         builder.token(R_BRACKET.into(), "]");
